@@ -35,12 +35,18 @@ func vOddTemplate(t int) (*vNode, vDefs) {
 		return obj(p("p", &vNode{kind: vkArr})), vDefs{}
 	case 5: // properties only, no type: object
 		return &vNode{kind: vkUntyped, props: []vProp{p("p", vLeaf(vkInt))}}, vDefs{}
-	default: // allOf only
+	case 6: // allOf only
 		return &vNode{kind: vkAllOf, ref: "X"}, vDefs{"X": obj(p("p", vLeaf(vkStr)))}
+	case 7: // tuple with three positions
+		return &vNode{kind: vkTuple, tuple: []*vNode{vLeaf(vkStr), vLeaf(vkInt), vLeaf(vkStr)}}, vDefs{}
+	case 8: // tuple with two positions
+		return &vNode{kind: vkTuple, tuple: []*vNode{vLeaf(vkStr), vLeaf(vkInt)}}, vDefs{}
+	default: // property that is a one-position tuple
+		return obj(p("p", &vNode{kind: vkTuple, tuple: []*vNode{vLeaf(vkInt)}})), vDefs{}
 	}
 }
 
-const vNumOdd = 7
+const vNumOdd = 10
 
 func vAnyTemplate(t int) (*vNode, vDefs) {
 	if t < vNumTemplates {
@@ -131,13 +137,25 @@ func VerifC12IdentityParams() {
 	ps := vQueryParam("s", "string", s.format, s.required, s.validations())
 	ph := vQueryParam("h", "string", "", false, spec.CommonValidations{})
 	ph.In = "header"
+	// a second parameter called "n" in another location, and an array parameter with an array default
+	pn2 := vQueryParam("n", "string", "", false, spec.CommonValidations{})
+	pn2.In = "header"
+	pa := vQueryParam("arr", "array", "", false, spec.CommonValidations{})
+	pa.Items = &spec.Items{}
+	pa.Items.Type = "integer"
+	if vBool2("arrayDefault") {
+		pa.Default = []interface{}{1, 2}
+		if vKnown("C12-D20", true) {
+			return
+		}
+	}
 	ps2 := ps
 	if len(ps.Enum) == 2 {
 		ps2.Enum = []interface{}{ps.Enum[1], ps.Enum[0]}
 		vCover("enum-permuted")
 	}
-	s1 := vSpecWithParams(pn, ps)
-	s2 := vSpecWithParams(ps2, pn)
+	s1 := vSpecWithParams(pn, ps, pn2, pa)
+	s2 := vSpecWithParams(pa, pn2, ps2, pn)
 	// path-level shared parameter on both sides
 	for _, sw := range []*spec.Swagger{s1, s2} {
 		pi := sw.Paths.Paths["/a"]
@@ -173,4 +191,25 @@ func VerifC12Total() {
 	diffs, err := Compare(s1, s2)
 	vAssert(err == nil, "Compare failed")
 	vObserve("ndiffs", len(diffs))
+}
+
+func init() { vRegister("VerifC12IdentityArrayParam", VerifC12IdentityArrayParam) }
+
+func VerifC12IdentityArrayParam() {
+	a := vMakeArrDef("a")
+	h := spec.Header{}
+	h.Type = "integer"
+	mx := vF64("header.max")
+	h.Maximum = vMaybeNil(vBool("header.noMax"), &mx)
+	mk := func() *spec.Swagger {
+		sw := vSpecWithParams(a.param())
+		r := sw.Paths.Paths["/a"].Get.Responses.StatusCodeResponses[200]
+		r.Headers = map[string]spec.Header{"X-Rate": h}
+		sw.Paths.Paths["/a"].Get.Responses.StatusCodeResponses[200] = r
+		return sw
+	}
+	vCover("built")
+	diffs, _ := Compare(mk(), mk())
+	vObserve("ndiffs", len(diffs))
+	vAssert(len(diffs) == 0, "a spec with an array parameter and a response header differs from itself")
 }
